@@ -78,6 +78,8 @@ def datapkts_to_ptfr(
     for ptdp in datapkts_to_ptdp(eth_ch10_packets):
         # Encapsulate the data in PTDP packets
         # Add the payload to the PTFR frame. IF we get a remainder then this from is full
+        # If the frame is already full the whole of this PTDP goes into the next frame, at offset 0
+        at_ptdp_start = len(ptfr.payload) == ptfr_len and not ptdp.low_latency
         remainder = ptfr.add_payload(ptdp.pack(), ptdp.low_latency)
         while remainder != bytes():
             # Spit out the full frame
@@ -86,14 +88,20 @@ def datapkts_to_ptfr(
             ptfr = _new_ptfr(ptfr_len, streamid, golay)
             # Maybe the  PTFP is bigger than one frame, then split it across PTFRs.
             while len(remainder) > ptfr_len:
-                ptfr.ptdp_offset = 0x7FF  # Reserved value: no PTDP begins in this frame
+                if at_ptdp_start:
+                    ptfr.ptdp_offset = 0x0  # The PTDP header is the first thing in this frame
+                    at_ptdp_start = False
+                else:
+                    ptfr.ptdp_offset = 0x7FF  # Reserved value: no PTDP begins in this frame
                 ptfr.add_payload(remainder[:ptfr_len])
                 yield ptfr  # Frame is full
                 remainder = remainder[ptfr_len:]  # If we have more data then save it for the next frame
                 ptfr = _new_ptfr(ptfr_len, streamid, golay)
 
             # Point to the first offset of the frame.
-            if len(remainder) == ptfr_len:
+            if at_ptdp_start:
+                ptfr.ptdp_offset = 0x0  # The PTDP header is the first thing in this frame
+            elif len(remainder) == ptfr_len:
                 ptfr.ptdp_offset = 0x7FF  # The tail fills the frame exactly so no PTDP begins in it
             else:
                 ptfr.ptdp_offset = len(remainder)
